@@ -297,11 +297,15 @@ def observe (w : World) (d : Decls) : Json :=
             let sp := specPreAt w d fuel prov key which
             some (Json.mkObj [
               ("which", jNat which),
+              ("owner", match lookupOwner w c.id key with | some (o, _) => jNat o | none => Json.null),
+              ("provider", jNat prov),
               ("pre", jArr ((preOf w f).map natsJson)), ("snaps", natsJson (snapsOf w f)), ("posts", natsJson (postsOf w f)),
               ("specPre", match sp with | some gs => jArr (gs.map natsJson) | none => Json.null),
               ("specSnaps", natsJson (specListAt w d.ownSnaps fuel prov key which)),
               ("specPosts", natsJson (specListAt w d.ownPosts fuel prov key which))]))]
-    Json.mkObj [("k", jNat c.id), ("dbc", boolJson c.dbc), ("mro", natsJson c.mro),
+    let invOwner : Json := match c.mro.find? (fun a => match w.cls? a with | some ca => ca.inv.isSome | none => false) with
+      | some a => jNat a | none => Json.null
+    Json.mkObj [("k", jNat c.id), ("dbc", boolJson c.dbc), ("mro", natsJson c.mro), ("invOwner", invOwner),
       ("inv", natsJson (invOf w c.id .all)), ("invCall", natsJson (invOf w c.id .onCall)),
       ("invSetattr", natsJson (invOf w c.id .onSetattr)),
       ("specInv", jArr ((specInv w d c.id).map fun p => jArr [jNat p.1, boolJson p.2.call, boolJson p.2.setattr])),
